@@ -209,7 +209,10 @@ def holdsShape (n m : Nat) (aff : Mat) (out : List Entry) : Bool :=
 /-- potentials from a list (missing entries read as 0) -/
 def vecOf (xs : List Rat) : Nat → Rat := fun i => xs.getD i 0
 
-/-! ### canonical order of an output (the property does not pin the order of the matches) -/
+/-! ### canonical order of an output (the property does not pin the order of the matches)
+
+Used by the symbolic ties: the traced output and the model's are compared after sorting by
+(source key, target key); `Proofs.C07.C07_sortEntries_perm` shows that sorting only permutes. -/
 
 def entryKey (e : Entry) : Nat × Nat :=
   ((match e.src with | none => 0 | some i => i + 1), (match e.tgt with | none => 0 | some j => j + 1))
@@ -225,29 +228,5 @@ def insertEntry (e : Entry) : List Entry → List Entry
 def sortEntries : List Entry → List Entry
   | [] => []
   | x :: xs => insertEntry x (sortEntries xs)
-
-/-! ### order-free encoding of an output that covers every index (symbolic tie at fixed shapes)
-
-For every source index: the key of its target (`0` = none, `j + 1`) and the reported affinity;
-for every target index the key of its source.  On outputs that mention every index exactly once
-the encoding determines the output up to order. -/
-
-def optKey : Option Nat → Rat
-  | none => 0
-  | some i => (i + 1 : Nat)
-
-def encodeOut (n m : Nat) (out : List Entry) : List Rat :=
-  ((List.range n).flatMap fun i =>
-    match out.find? (fun e => e.src == some i) with
-    | some e => [optKey e.tgt, e.aff]
-    | none => [-1, -1])
-  ++ ((List.range m).map fun j =>
-    match out.find? (fun e => e.tgt == some j) with
-    | some e => optKey e.src
-    | none => -1)
-
-def encodeResult (n m : Nat) : Except LoopErr (List Entry) → Option (List Rat)
-  | .ok out => some (encodeOut n m out)
-  | .error _ => none
 
 end SE.Matching
